@@ -54,7 +54,9 @@ CONFIGS = [{"optimizer": "incremental"}, {"optimizer": "optimize", "optimize_pri
            {"optimizer": "optimize", "optimize_priority": "weight"},
            # the default priority of the built-in optimiser (pareto; with ONE objective there is no front to walk:
            # repeated solves keep answering) and box
-           {"optimizer": "optimize"}, {"optimizer": "optimize", "optimize_priority": "box"}]
+           {"optimizer": "optimize"}, {"optimizer": "optimize", "optimize_priority": "box"},
+           # an optimisation cut short by its iteration budget leaves nothing behind either
+           {"optimizer": "incremental", "max_iter": 1}, {"optimizer": "incremental", "max_iter": 2}]
 
 
 class Model:
